@@ -1036,6 +1036,44 @@ def traceslotidx(run):
     run.held('SLOTREF', inst, '', '%d calls, %d with a negative offset, each under its test' % (n, nz))
 
 
+def indexfacts(run, fx, rule='CONST'):
+    """two subscripts that every shaping and justification call goes through, each dominated by its own bound (dom.facts_at):
+      * GlyphCache::glyph(gid): every `_glyphs[gid]` / `_boxes[gid]` with the parameter as index is under gid < numGlyphs() -- callers such
+        as Segment::theGlyphBBoxTemporary (justify's trailing-whitespace loop) hand over raw glyph ids;
+      * Silf::runGraphite(seg, first, last): every `m_passes[i]` is under i < lastPass (an ordering, not `!=`: Segment::justify calls it
+        with the range (justification pass, positioning pass), which the loader only accepts inverted or empty -- with `!=` the loop
+        runs on past m_passes[numPasses])."""
+    import re
+    for q, arrs, want, why in (('graphite2::GlyphCache::glyph', ('_glyphs', '_boxes'), 'numGlyphs',
+                                'a glyph id at or beyond the glyph count (a cmap or pseudo-glyph entry can produce one) indexes behind the cache'),
+                               ('graphite2::Silf::runGraphite', ('m_passes',), 'lastPass',
+                                'for an inverted pass range (Segment::justify: justification pass above the positioning pass) the loop runs past the last pass')):
+        fn = fx.one(q)
+        inst = '%s: every %s[..] subscript is under its bound' % (q.split('graphite2::')[-1], ' / '.join(arrs))
+        n, bad = 0, None
+        for _, e in fn.elements():
+            if e['k'] != 'ArraySubscriptExpr':
+                continue
+            base = fn.render(fn.strip_all_casts(fn.N(e['c'][0])))
+            if not any(base.endswith(a) for a in arrs):
+                continue
+            ix = fn.strip_all_casts(fn.N(e['c'][1]))
+            if ix.get('v') is not None:
+                continue
+            n += 1
+            it_ = fn.render(ix)
+            ok = any(f[0] == it_ and f[1] == '<' and want in f[2] for f in dom.facts_at(fn, e['i']))
+            if not ok:
+                bad = bad or (e, it_, base)
+        if n < 1:
+            run.broken(rule, inst, 'no variable subscript of %s found in %s' % (arrs, q), fn.where())
+        elif bad:
+            e, it_, base = bad
+            run.violated(rule, inst, fn.loc(e), '%s[%s] is not dominated by %s < %s: %s' % (base, it_, it_, want + ('()' if want == 'numGlyphs' else ''), why))
+        else:
+            run.held(rule, inst, fn.where(), '%d subscript(s)' % n)
+
+
 def _counts_up(fn, vid, K):
     """the local is initialised with a constant in 0..K and otherwise only written by ++ / += 1"""
     init_ok, other = False, False
@@ -1126,6 +1164,7 @@ def run(run):
     c18_.applyval_exec(run, fx, 'GROWTH')        # SET_FEAT grows the segment's feature words through applyValToFeature: no store behind the block (shared with C18)
     const_(run, vm)
     localarrays(run, fx)
+    indexfacts(run, fx)
     from . import c01 as c01g_
     from .util import OnlyRules as _OnlyG
     c01g_.glatend(_OnlyG(run, ['VALIDATOR'], {'VALIDATOR': 'CONST'}, soft=True), fx)        # a lazily loaded glyph's attribute runs are read inside the Glat table, during gr_make_seg (shared with C01)
